@@ -500,7 +500,7 @@ func c29(c *core.Ctx) {
 	p := c.P
 	cg := c.CG()
 	c.Explain = "Static necessary conditions for 'fast name discovery agrees with the stored name': writer and reader agree on the name area (NameLength field range, name written right after the header, read with that length, data starts behind it); every call that can create a .hyd passes a swamp name that derives from the chronicler's name / the loaded name / a parameter, never a constant, and production builds the V2 chronicler only through NewV2WithName; the metadata-entry key used by the fallback lookup has one value across reader, explorer, CLI and migrator."
-	c.NotCovered = []string{"that the explorer listing equals the directory contents", "legacy V1 folders (name stored in meta file)", "runtime equality of written and read names"}
+	c.NotCovered = []string{"that the explorer listing equals the directory contents (decided only: a successful rescan starts from an empty index and inserts)", "legacy V1 folders (name stored in meta file)", "runtime equality of written and read names"}
 
 	rL := c.Rule("C29.layout", "NameLength has the same byte range in FileHeader.Serialize and Deserialize; NewFileReader reads exactly NameLength bytes right after the header; createNewFile sets NameLength from the bytes it writes", 3)
 	{
@@ -683,6 +683,131 @@ func c29(c *core.Ctx) {
 		}
 	}
 
+	// C29.listing: a scan that reports success has replaced the previous listing.
+	rLs := c.Rule("C29.listing", "the explorer's listing is rebuilt by every scan that reports success: on every path from the entry of Explorer.Scan to a return that can carry a nil error the root of the index the List*/Get* methods read has been reset (assigned a fresh container) - in Scan itself or in a function it calls, on each of that function's own success exits - and the scan inserts into an index (a swamp removed from disk cannot survive a successful rescan, whatever the new scan found)", 2)
+	{
+		const pkgExplorer = "app/server/explorer"
+		scan := c.Fn(pkgExplorer + ".Explorer.Scan")
+		// the index type: the struct whose map-typed root fields are assigned wholesale somewhere and
+		// read by the listing methods; found through the field of Explorer that ListSwamps reads
+		lister := c.Fn(pkgExplorer + ".Explorer.ListSwamps")
+		var idxField *types.Var
+		for _, a := range core.Accesses(lister.Info(), lister.Decl.Body, nil, false) {
+			if !a.Write && a.Field != nil {
+				if _, isPtr := a.Field.Type().(*types.Pointer); isPtr {
+					idxField = a.Field
+				}
+			}
+		}
+		var roots = map[*types.Var]bool{}
+		if idxField != nil {
+			if st, ok := idxField.Type().(*types.Pointer).Elem().Underlying().(*types.Struct); ok {
+				for i := 0; i < st.NumFields(); i++ {
+					if _, isMap := st.Field(i).Type().Underlying().(*types.Map); isMap {
+						roots[st.Field(i)] = true
+					}
+				}
+			}
+		}
+		if idxField == nil || len(roots) == 0 {
+			rLs.Bad(pkgExplorer+":index-root", lister.Decl.Pos(), "cannot identify the index the listing methods read (rule needs review)")
+		} else {
+			// direct resetters: functions that assign a root wholesale on every path
+			direct := map[*core.Func]bool{}
+			inserter := map[*core.Func]bool{}
+			for _, g := range p.FuncsIn(pkgExplorer) {
+				if g.Decl.Body == nil {
+					continue
+				}
+				for _, a := range core.Accesses(g.Info(), g.Decl.Body, roots, false) {
+					if a.Write && a.Form == "assign" {
+						fl := core.NewFlow(p, g.Info(), g.Decl.Body)
+						if !fl.ExitWithout(fl.Entry(), nil, false, core.ContainsNode(a.Node)) || len(fl.G.Blocks) == 1 {
+							direct[g] = true
+						}
+					}
+					if a.Write && a.Form == "elem" {
+						inserter[g] = true
+					}
+				}
+			}
+			// success-capable returns of f that are reachable without a reset
+			var missing func(f *core.Func, depth int) []*ast.ReturnStmt
+			memo := map[*core.Func][]*ast.ReturnStmt{}
+			done := map[*core.Func]bool{}
+			missing = func(f *core.Func, depth int) []*ast.ReturnStmt {
+				if done[f] {
+					return memo[f]
+				}
+				info := f.Info()
+				fl := core.NewFlow(p, info, f.Decl.Body)
+				isReset := core.NodeHasCall(func(call *ast.CallExpr) bool {
+					g := p.ByObj[core.Callee(info, call)]
+					if g == nil || g == f || g.Decl.Body == nil {
+						return false
+					}
+					if direct[g] {
+						return true
+					}
+					if depth < 2 && g.Pkg == f.Pkg {
+						sig, _ := g.Obj.Type().(*types.Signature)
+						if sig != nil && core.ReturnsError(sig) {
+							return len(missing(g, depth+1)) == 0
+						}
+					}
+					return false
+				})
+				var out []*ast.ReturnStmt
+				fl.Nodes(func(l core.Loc, n ast.Node) {
+					ret, ok := n.(*ast.ReturnStmt)
+					if !ok {
+						return
+					}
+					if len(ret.Results) > 0 {
+						last := core.Unparen(ret.Results[len(ret.Results)-1])
+						if call, isCall := last.(*ast.CallExpr); isCall && core.IsCallTo(info, call, "fmt.Errorf", "errors.New") {
+							return
+						}
+						if obj := core.ObjOf(info, last); obj != nil {
+							nonNil := false
+							for _, ft := range fl.FactsAt(l) {
+								cmpFact(ft, func(x ast.Expr, op token.Token, y ast.Expr) bool {
+									if op == token.NEQ && core.ObjOf(info, x) == obj && core.IsNilIdent(info, y) {
+										nonNil = true
+									}
+									return false
+								})
+							}
+							if nonNil {
+								return
+							}
+						}
+					}
+					if r, _ := fl.CanReach(fl.Entry(), nil, isReset, core.ContainsNode(ret)); r {
+						out = append(out, ret)
+					}
+				})
+				done[f] = true
+				memo[f] = out
+				return out
+			}
+			miss := missing(scan, 0)
+			if len(miss) > 0 {
+				rLs.Bad(scan.Key+":success-implies-reset", miss[0].Pos(), "Scan can report success on a path on which the previous listing was never reset (neither here nor on every success exit of the function it calls): swamps that were removed from disk stay in ListSwamps / GetSwampDetail after the rescan")
+			} else {
+				rLs.Ok(scan.Key+":success-implies-reset", scan.Decl.Pos(), "every success-capable return follows a reset of the index root")
+			}
+			// the scan inserts what it finds
+			ins := false
+			for g := range inserter {
+				if cg.ReachersOf(g)[scan] {
+					ins = true
+				}
+			}
+			rLs.Check(ins, scan.Key+":scan-inserts", scan.Decl.Pos(), "a function that inserts into the index is reachable from Scan", "nothing reachable from Scan inserts into the index any more")
+		}
+	}
+
 	rK := c.Rule("C29.const", "the metadata entry key constants of the reader and the migrator have the same value, and every comparison of an entry key against the metadata key uses one of them", 2)
 	a := p.Const(pkgV2, "MetadataEntryKey")
 	b := p.Const(pkgV2+"/migrator", "MetadataEntryKey")
@@ -732,6 +857,52 @@ func closeBeforeCompact(c *core.Ctx, r *core.Rule) {
 			closers[g] = true
 		}
 	}
+	// the writer field (by type) and its "closed" flags: bool fields of the same struct that are set to
+	// true in a function that closes the writer and to false in a function that stores a new writer
+	var writerF *types.Var
+	closedFlags := map[*types.Var]bool{}
+	if _, st := p.StructOf(pkgChron, "chroniclerV2"); st != nil {
+		fwNamed := p.Named(pkgV2, "FileWriter")
+		for i := 0; i < st.NumFields(); i++ {
+			if pt, ok := st.Field(i).Type().(*types.Pointer); ok && fwNamed != nil && types.Identical(pt.Elem(), fwNamed) {
+				writerF = st.Field(i)
+			}
+		}
+		setTrue, setFalse := map[*types.Var]bool{}, map[*types.Var]bool{}
+		for _, g := range p.FuncsIn(pkgChron) {
+			if g.Decl.Body == nil {
+				continue
+			}
+			storesWriter := false
+			for _, a := range core.Accesses(g.Info(), g.Decl.Body, map[*types.Var]bool{writerF: true}, false) {
+				if a.Write {
+					if as, ok := a.Node.(*ast.AssignStmt); ok && len(as.Rhs) == 1 && !core.IsNilIdent(g.Info(), as.Rhs[0]) {
+						storesWriter = true
+					}
+				}
+			}
+			for _, a := range core.Accesses(g.Info(), g.Decl.Body, nil, false) {
+				if b, ok := a.Field.Type().Underlying().(*types.Basic); !ok || b.Kind() != types.Bool {
+					continue
+				}
+				if a.Form == "assign-true" && closers[g] {
+					setTrue[a.Field] = true
+				}
+				if a.Form == "assign-false" && storesWriter {
+					setFalse[a.Field] = true
+				}
+			}
+		}
+		for fld := range setTrue {
+			if setFalse[fld] {
+				closedFlags[fld] = true
+			}
+		}
+	}
+	if writerF == nil {
+		r.Bad(pkgChron+".chroniclerV2:writer-field", token.NoPos, "the chronicler has no *v2.FileWriter field any more (rule needs review)")
+		return
+	}
 	nSites := 0
 	for _, f := range p.FuncsIn(pkgChron) {
 		if f.Decl.Body == nil || f.Decl.Recv == nil {
@@ -750,45 +921,75 @@ func closeBeforeCompact(c *core.Ctx, r *core.Rule) {
 		nSites++
 		c.Touch(f)
 		fl := core.NewFlow(p, info, f.Decl.Body)
-		lc := fl.MustLocate(compact)
-		ok := false
-		core.Calls(f.Decl.Body, false, func(call *ast.CallExpr) {
-			isClose := core.IsWsCallTo(info, call, pkgV2+".FileWriter.Close")
-			if t := p.ByObj[core.Callee(info, call)]; t != nil && closers[t] && t != f {
-				isClose = true
+		// a node that closes the writer before the compaction (not deferred: a defer runs after it)
+		isCloseNode := func(n ast.Node) bool {
+			if _, isDefer := n.(*ast.DeferStmt); isDefer {
+				return false
 			}
-			if !isClose {
-				return
-			}
-			for _, n := range core.PathTo(f.Decl.Body, call) {
-				if _, isDefer := n.(*ast.DeferStmt); isDefer {
-					return // runs after the compaction
-				}
-			}
-			if l, found := fl.Locate(call); found && fl.Dominates(l, lc) {
-				ok = true
-				return
-			}
-			// guarded by `if <writer is open>`: the test dominates the compaction
-			for _, n := range core.PathTo(f.Decl.Body, call) {
-				is, isIf := n.(*ast.IfStmt)
-				if !isIf || !(is.Body.Pos() <= call.Pos() && call.End() <= is.Body.End()) {
-					continue
-				}
-				mentionsWriter := false
-				ast.Inspect(is.Cond, func(y ast.Node) bool {
-					if sx, isSel := y.(*ast.SelectorExpr); isSel {
-						if fld := core.FieldOf(info, sx); fld != nil && (fld.Name() == "writer" || fld.Name() == "writerClosed") {
-							mentionsWriter = true
-						}
-					}
+			return core.NodeHasCall(func(call *ast.CallExpr) bool {
+				if core.IsWsCallTo(info, call, pkgV2+".FileWriter.Close") {
 					return true
-				})
-				if l, found := fl.Locate(is.Cond); mentionsWriter && found && fl.Dominates(l, lc) {
-					ok = true
+				}
+				t := p.ByObj[core.Callee(info, call)]
+				return t != nil && closers[t] && t != f
+			})(n)
+		}
+		// an edge on which the writer is known not to be open: writer == nil, or the closed flag is set.
+		// A compound test is taken apart: the false edge of `w != nil && !closed && X` only proves
+		// "not open" when the negation of every conjunct does - an extra conjunct (say, "buffer not
+		// empty") lets an open writer through on that edge.
+		var notOpen func(e ast.Expr, truth bool) bool
+		notOpen = func(e ast.Expr, truth bool) bool {
+			e = core.Unparen(e)
+			switch v := e.(type) {
+			case *ast.UnaryExpr:
+				if v.Op == token.NOT {
+					return notOpen(v.X, !truth)
+				}
+			case *ast.BinaryExpr:
+				switch v.Op {
+				case token.LAND:
+					if truth {
+						return notOpen(v.X, true) || notOpen(v.Y, true)
+					}
+					return notOpen(v.X, false) && notOpen(v.Y, false)
+				case token.LOR:
+					if truth {
+						return notOpen(v.X, true) && notOpen(v.Y, true)
+					}
+					return notOpen(v.X, false) || notOpen(v.Y, false)
+				case token.EQL, token.NEQ:
+					var other ast.Expr
+					if fld := core.FieldOf(info, v.X); fld != nil && fld == writerF {
+						other = v.Y
+					} else if fld := core.FieldOf(info, v.Y); fld != nil && fld == writerF {
+						other = v.X
+					}
+					if other != nil && core.IsNilIdent(info, other) {
+						return (v.Op == token.EQL) == truth
+					}
+				}
+			case *ast.SelectorExpr:
+				if fld := core.FieldOf(info, v); fld != nil && closedFlags[fld] {
+					return truth
 				}
 			}
-		})
+			return false
+		}
+		cut := map[core.Edge]bool{}
+		for bi := range fl.G.Blocks {
+			cond := fl.CondOf(bi)
+			if cond == nil {
+				continue
+			}
+			for si := 0; si < 2; si++ {
+				if notOpen(cond, si == 0) {
+					cut[core.Edge{From: bi, Succ: si}] = true
+				}
+			}
+		}
+		reach, _ := fl.CanReach(fl.Entry(), cut, isCloseNode, core.ContainsNode(compact))
+		ok := !reach
 		r.Check(ok, f.Key+":close-writer-before-compact", f.Decl.Pos(), "open writer closed (buffer flushed) before the in-place compaction", "the file is compacted while the chronicler's writer is still open: the entries still buffered in it are flushed into the replaced inode afterwards and are lost; the writer keeps appending to a file that no longer has a name")
 	}
 	if nSites == 0 {
